@@ -370,12 +370,20 @@ Proof.
 Qed.
 
 (* ---- Stop ---- *)
+Lemma B_unreserve_unbound s f :
+  (∀ e, ¬ B s f e) → ∀ f' e', B (unreserve f s) f' e' ↔ B s f' e'.
+Proof.
+  intros Hn f' e'. rewrite (B_delete s (unreserve f s) f eq_refl). split; [by intros [_ ?]|].
+  intros H. split; [|done]. intros ->. by apply Hn in H.
+Qed.
+
 Lemma stop_fold l : ∀ s cs,
   G s → NoDup l.*1 → (∀ f sf, (f, sf) ∈ l → refs s !! f = Some sf) →
   let s' := (fold_left stop_one l (s, cs)).1 in
   G s' ∧ (∀ f e, B s' f e → f ∉ l.*1 ∧ B s f e) ∧
   bound_ever s' = bound_ever s ∧ next s' = next s ∧
-  (∀ x, x ∈ released s' → x ∈ released s ∨ x.2 = RcStop).
+  (∀ x, x ∈ released s' → x ∈ released s ∨ x.2 = RcStop) ∧
+  (∀ k, refs s' !! k = if decide (k ∈ l.*1) then None else refs s !! k).
 Proof.
   induction l as [|[f sf] l IH]; intros s cs HG Hnd Hin.
   - cbn. split_and!; try done.
@@ -384,53 +392,80 @@ Proof.
   - cbn [fmap list_fmap fst] in Hnd. apply NoDup_cons in Hnd as [Hf Hnd].
     assert (Hl : refs s !! f = Some sf) by (apply Hin; by left).
     cbn [fold_left].
+    assert (Hkeys : ∀ (s1 : sess), refs s1 = delete f (refs s) →
+              ∀ f' sf', (f', sf') ∈ l → refs s1 !! f' = Some sf').
+    { intros s1 Hr f' sf' H. rewrite Hr, lookup_delete_ne.
+      - apply Hin. by right.
+      - intros <-. apply Hf. apply elem_of_list_fmap. by exists (f, sf'). }
+    assert (Hlook : ∀ (s1 s' : sess), refs s1 = delete f (refs s) →
+              (∀ k, refs s' !! k = if decide (k ∈ l.*1) then None else refs s1 !! k) →
+              ∀ k, refs s' !! k = if decide (k ∈ ((f, sf) :: l).*1) then None else refs s !! k).
+    { intros s1 s' Hr H k. rewrite H, Hr. cbn [fmap list_fmap fst].
+      destruct (decide (k = f)) as [->|Hne].
+      - rewrite lookup_delete. rewrite (decide_True (P := f ∈ f :: l.*1)) by (by left).
+        by destruct (decide _).
+      - rewrite lookup_delete_ne by done.
+        destruct (decide (k ∈ l.*1)) as [Hk|Hk].
+        + rewrite decide_True; [done|by right].
+        + rewrite decide_False; [done|]. by intros [?|?]%elem_of_cons. }
     destruct (s_ent sf) as [[e d]|] eqn:He.
     + assert (Hb : B s f e) by (by exists sf, d).
-      set (s1 := set_refs (<[f := SFid None (s_file sf) (s_mode sf) (s_locked sf)]> (refs s)) (g_release e RcStop s)).
+      set (s1 := unreserve f (g_release e RcStop s)).
       assert (Hs : stop_one (s, cs) (f, sf) = (s1, cs ++ [CClunk e])).
       { unfold stop_one. rewrite He. by rewrite g_use_noop by apply (G_live _ HG _ _ Hb). }
       rewrite Hs.
+      assert (HB1 : ∀ f' e', B s1 f' e' ↔ f' ≠ f ∧ B s f' e') by (by eapply B_delete).
       assert (HG1 : G s1).
-      { eapply (G_unbind s s1 f e RcStop false); [done|exact Hb|..|exact HG]; subst s1; sproj; try done.
-        eapply B_insert_none; [by sproj|done]. }
-      assert (HB1 : ∀ f' e', B s1 f' e' ↔ f' ≠ f ∧ B s f' e').
-      { eapply B_insert_none; [by subst s1; sproj|done]. }
-      specialize (IH s1 (cs ++ [CClunk e]) HG1 Hnd).
-      destruct IH as (IH1 & IH2 & IH3 & IH4 & IH5).
-      { intros f' sf' H. subst s1. sproj. rewrite lookup_insert_ne.
-        - apply Hin. by right.
-        - intros <-. apply Hf. apply elem_of_list_fmap. by exists (f, sf'). }
+      { eapply (G_unbind s s1 f e RcStop false); [done|exact Hb|exact HB1|..|exact HG]; subst s1; by sproj. }
+      specialize (IH s1 (cs ++ [CClunk e]) HG1 Hnd (Hkeys s1 eq_refl)).
+      destruct IH as (IH1 & IH2 & IH3 & IH4 & IH5 & IH6).
       split_and!; try done.
       * intros f' e' H. apply IH2 in H as [H1 H2]. apply HB1 in H2 as [H2 H3].
         split; [|done]. cbn. by intros [?|?]%elem_of_cons.
       * intros x H. apply IH5 in H as [H|H]; [|by right].
         subst s1. sproj. apply elem_of_app in H as [H|H]; [by left|].
         apply elem_of_list_singleton in H. subst x. by right.
-    + assert (Hs : stop_one (s, cs) (f, sf) = (s, cs)) by (unfold stop_one; by rewrite He).
+      * apply (Hlook s1); [reflexivity|exact IH6].
+    + assert (Hnb : ∀ e, ¬ B s f e) by (intros e (x & y & H1 & H2); congruence).
+      assert (Hs : stop_one (s, cs) (f, sf) = (unreserve f s, cs)) by (unfold stop_one; by rewrite He).
       rewrite Hs.
-      specialize (IH s cs HG Hnd). destruct IH as (IH1 & IH2 & IH3 & IH4 & IH5).
-      { intros f' sf' H. apply Hin. by right. }
+      assert (HG1 : G (unreserve f s)).
+      { eapply G_same; [..|exact HG]; sproj; try done. by apply B_unreserve_unbound. }
+      specialize (IH (unreserve f s) cs HG1 Hnd (Hkeys (unreserve f s) eq_refl)).
+      destruct IH as (IH1 & IH2 & IH3 & IH4 & IH5 & IH6).
       split_and!; try done.
-      intros f' e' H. apply IH2 in H as [H1 H2]. split; [|done].
-      cbn. intros [->|?]%elem_of_cons; [|done].
-      destruct H2 as (x & y & H2 & H3). congruence.
+      * intros f' e' H. apply IH2 in H as [H1 H2]. apply B_unreserve_unbound in H2; [|done].
+        split; [|done]. cbn. intros [->|?]%elem_of_cons; [|done]. by apply Hnb in H2.
+      * apply (Hlook (unreserve f s)); [reflexivity|exact IH6].
 Qed.
 
+Lemma any_locked_WF s : WF s → any_locked s = false.
+Proof.
+  intros Hwf. unfold any_locked. apply not_true_is_false. intros H.
+  apply existsb_exists in H as ([f sf] & Hin & Hl). apply elem_of_list_In, elem_of_map_to_list in Hin.
+  destruct (Hwf _ _ Hin) as (Hlk & _). cbn in Hl. congruence.
+Qed.
+
+(* Stop: every entry still bound is released, the table is emptied, Stop returns *)
 Lemma stop_G s :
-  G s →
+  G s → any_locked s = false →
   let s' := (do_stop s).1.1 in
   G s' ∧ (∀ f e, ¬ B s' f e) ∧ bound_ever s' = bound_ever s ∧
   (∀ e, e ∈ bound_ever s' → e ∈ rel s') ∧
-  (∀ x, x ∈ released s' → x ∈ released s ∨ x.2 = RcStop).
+  (∀ x, x ∈ released s' → x ∈ released s ∨ x.2 = RcStop) ∧
+  refs s' = ∅ ∧ next s' = next s ∧ (do_stop s).1.2 = ROk 0.
 Proof.
-  intros HG. unfold do_stop.
+  intros HG Hnl. unfold do_stop. rewrite Hnl.
   pose proof (stop_fold (map_to_list (refs s)) s [] HG (NoDup_fst_map_to_list _)) as H.
-  destruct H as (H1 & H2 & H3 & H4 & H5).
+  destruct H as (H1 & H2 & H3 & H4 & H5 & H6).
   { intros f sf H. by apply elem_of_map_to_list in H. }
   destruct (fold_left stop_one (map_to_list (refs s)) (s, [])) as [s' cs]. cbn in *.
+  assert (Hemp : refs s' = ∅).
+  { apply map_eq. intros k. rewrite H6, lookup_empty. destruct (decide _) as [|Hk]; [done|].
+    destruct (refs s !! k) as [sf|] eqn:Hl; [|done]. exfalso. apply Hk.
+    apply elem_of_list_fmap. exists (k, sf). split; [done|]. by apply elem_of_map_to_list. }
   assert (Hnb : ∀ f e, ¬ B s' f e).
-  { intros f e H. apply H2 in H as [Hf (sf & d & Hl & _)]. apply Hf.
-    apply elem_of_list_fmap. exists (f, sf). split; [done|]. by apply elem_of_map_to_list. }
+  { intros f e (sf & d & Hl & _). rewrite Hemp in Hl. by apply lookup_empty_Some in Hl. }
   split_and!; try done.
   intros e H. apply (G_ever _ H1) in H as [_ [[f H]|H]]; [|done]. by apply Hnb in H.
 Qed.
@@ -473,38 +508,20 @@ Proof.
   - cbn in Hnh. by apply Forall_cons in Hnh as [? _].
 Qed.
 
-(* ---- Stop while an operation is in flight (holds its fid's lock inside a file-system call) ---- *)
-Lemma B_set_locked s s' f b :
-  refs s' = alter (set_locked b) f (refs s) → ∀ f' e', B s' f' e' ↔ B s f' e'.
-Proof.
-  unfold B. intros -> f' e'. destruct (decide (f' = f)) as [->|Hne].
-  - rewrite lookup_alter. destruct (refs s !! f) as [sf|]; cbn; split.
-    + intros (x & d & [= <-] & H). eauto.
-    + intros (x & d & [= <-] & H). eauto.
-    + by intros (x & d & ? & _).
-    + by intros (x & d & ? & _).
-  - by rewrite lookup_alter_ne.
-Qed.
-
-Lemma G_set_locked s f b : G s → G (set_refs (alter (set_locked b) f (refs s)) s).
-Proof. intros HG. eapply G_same; [..|exact HG]; sproj; try done. by eapply B_set_locked. Qed.
-
-Lemma inflight_stop_G s o ts f :
-  WF s → G s → op_simple_fid o = Some f →
+(* ---- Stop while an operation is in flight: Stop waits, so it sees the operation's final state ---- *)
+Lemma inflight_stop_G s o ts :
+  WF s → G s → is_stop o = false →
   let s3 := (inflight_stop s o ts).2.1.1 in
-  G s3 ∧ (∀ f' e, ¬ B s3 f' e) ∧
+  G s3 ∧ (∀ f' e, ¬ B s3 f' e) ∧ refs s3 = ∅ ∧
   bound_ever s3 = bound_ever (sstep s o ts).1.1 ∧
-  (∀ e, e ∈ bound_ever s3 → e ∈ rel s3).
+  (∀ e, e ∈ bound_ever s3 → e ∈ rel s3) ∧
+  (inflight_stop s o ts).2.1.2 = ROk 0 ∧ (inflight_stop s o ts).1.1.2 ≠ RHang.
 Proof.
-  intros Hwf HG Hf. assert (Ho : is_stop o = false) by (by destruct o).
+  intros Hwf HG Ho.
   pose proof (step_G s o ts Hwf HG Ho) as HG1.
-  unfold inflight_stop. destruct (sstep s o ts) as [[s1 r] cs]. cbn in HG1. rewrite Hf.
-  pose proof (stop_G (lock f s1) (G_set_locked s1 f true HG1)) as (HG2 & Hnb & Hbe & Hall & _).
-  destruct (do_stop (lock f s1)) as [[s2 r2] cs2]. cbn in *.
-  assert (HB3 : ∀ f' e', B (unlock f s2) f' e' ↔ B s2 f' e') by (by eapply B_set_locked).
-  split_and!.
-  - by apply G_set_locked.
-  - intros f' e H. apply HB3 in H. by apply Hnb in H.
-  - done.
-  - intros e He. by apply Hall.
+  pose proof (step_refines s o ts Hwf Ho) as Hst.
+  unfold inflight_stop. destruct (sstep s o ts) as [[s1 r] cs]. cbn in HG1, Hst.
+  destruct Hst as (Hwf1 & Hnh & _).
+  pose proof (stop_G s1 HG1 (any_locked_WF _ Hwf1)) as (HG2 & Hnb & Hbe & Hall & _ & Hemp & _ & Hok).
+  cbn. split_and!; done.
 Qed.
